@@ -256,6 +256,8 @@ def conc_value(kind, field, model_words=1, tag=""):
     if kind == "cleared":
         return ""
     if kind == "str":
+        if field in ("comment", "source"):
+            return "%s%s e\u0301 \u212b text" % (field, tag)          # not stable under Unicode normalisation
         return " ".join("http://%s%s/w%d" % (field.replace("-", ""), tag, i) for i in range(max(1, model_words)))
     if kind == "list1":
         return ["http://%s%s/l0" % (field, tag)]
@@ -282,31 +284,42 @@ def conc_base(version, model, force_top=False):
         meta["httpseeds"] = ["http://old/h"]
     info = {}
     if has("comment"):
-        info["comment"] = "old comment"
-    big = 70000 if int(model.get("base.layers", 1)) == 1 else 30000
-    data_a, data_b, data_c = refconc.content("a", big), refconc.content("b", 5), refconc.content("c", 7)
+        info["comment"] = "old comme\u0301nt"
+    layered = int(model.get("base.layers", 1)) == 1
+    big = 70000 if layered else 30000
+    nb = 40000 if layered else 5
+    data_a, data_b, data_c = refconc.content("a", big), refconc.content("b", nb), refconc.content("c", 7)
     if version in (2, 3):
         ra, la = refconc.v2_file(data_a, 32768)
-        rb, _ = refconc.v2_file(data_b, 32768)
+        rb, lb = refconc.v2_file(data_b, 32768)
+        if layered:
+            # contents are chosen so that the two roots collate differently as bytes and as the text str() gives for
+            # them (a sort by the wrong key then shows); the input itself is canonical
+            for k in range(400):
+                data_a, data_b = refconc.content("a%d" % k, big), refconc.content("b%d" % k, nb)
+                ra, la = refconc.v2_file(data_a, 32768)
+                rb, lb = refconc.v2_file(data_b, 32768)
+                if ra < rb and str(ra) > str(rb):
+                    break
         rc, _ = refconc.v2_file(data_c, 32768)
-        info["file tree"] = {"announce": {"": {"length": big, "pieces root": ra}}, "comment": {"": {"length": 5, "pieces root": rb}},
+        info["file tree"] = {"announce": {"": {"length": big, "pieces root": ra}}, "comment": {"": {"length": nb, "pieces root": rb}},
                              "private": {"source": {"": {"length": 7, "pieces root": rc}}, "url-list": {"": {"length": 0}}}}
     if version in (1, 3):
-        info["files"] = [{"length": big, "path": ["announce"]}, {"length": 5, "path": ["comment"]},
+        info["files"] = [{"length": big, "path": ["announce"]}, {"length": nb, "path": ["comment"]},
                          {"length": 7, "path": ["private", "source"]}, {"length": 0, "path": ["private", "url-list"]}]
     if version in (2, 3):
         info["meta version"] = 2
-    info["name"] = "name"
+    info["name"] = "na\u0301me \u212b"          # not stable under Unicode normalisation
     info["piece length"] = 32768
     if version in (1, 3):
         info["pieces"] = refconc.v1_pieces(data_a + data_b + data_c, 32768)
     if has("private"):
         info["private"] = 1
     if has("source"):
-        info["source"] = "old source"
+        info["source"] = "old source \ufb01"
     meta["info"] = info
     if version in (2, 3):
-        meta["piece layers"] = {ra: la} if la is not None else {}
+        meta["piece layers"] = dict(sorted({r: l for r, l in ((ra, la), (rb, lb)) if l is not None}.items()))
     if has("url-list"):
         meta["url-list"] = ["http://old/w"]
     return meta
